@@ -702,7 +702,7 @@ fn get_invisible_line_length(layer: &Layer, y: i32) -> i32 {
 
 fn read_utf8_encoded_string(data: &[u8]) -> (String, usize) {
     let size = u32::from_le_bytes(data[0..4].try_into().unwrap()) as usize;
-    (unsafe { String::from_utf8_unchecked(data[4..(4 + size)].to_vec()) }, size + 4)
+    (String::from_utf8_lossy(&data[4..(4 + size)]).into_owned(), size + 4)
 }
 
 fn write_utf8_encoded_string(data: &mut Vec<u8>, s: &str) {
